@@ -29,7 +29,7 @@ CLAIMED = {
          "DESIGN.md §5 C06"),
  "C07": ("exploration",
          "runtime monitor over recorded API histories with an abstract set/lineage model: Parse-after-Execute and Clone-after-Execute must fail; executions equal the per-lineage replay reference",
-         "Histories interleave New (of fresh and existing names, before and after execution, with parsing into the result and into the replaced stale handle), Parse, file-based parsing, Clone (several generations), redefinitions on either side, Lookup, Templates and Execute*; the model decides which calls must fail, the replay reference (definition calls of the handle's own lineage only) exposes any leakage between original and clone or any late Parse that took effect. Because a reference that replays Clone and Parse cannot see defects of those calls themselves, three more references are compared: every Clone replaced by a set rebuilt from the definitions made before it (the engine's Clone is not called), an unrelated New+Parse made through the handle just before the call, and Execute against ExecuteTemplate of the handle's own name. A Parse racing with the first Execute on another goroutine must be explained by one of the two sequential orders.",
+         "Histories interleave New (of fresh and existing names, before and after execution, with parsing into the result and into the replaced stale handle), Parse, file-based parsing, Clone (several generations), redefinitions on either side, Lookup, Templates and Execute*; the model decides which calls must fail, the replay reference (definition calls of the handle's own lineage only) exposes any leakage between original and clone or any late Parse that took effect. Because a reference that replays Clone and Parse cannot see defects of those calls themselves, three more references are compared: every Clone replaced by a set rebuilt from the definitions made before it (the engine's Clone is not called), an unrelated New+Parse made through the handle just before the call, and Execute against ExecuteTemplate of the handle's own name. A Parse racing with the first Execute on another goroutine must be explained by one of the two sequential orders. Two preludes make the rare shapes frequent: a first execution that fails before any analysis (Execute on a handle declared without a body) followed by Clone of and Parse into that handle, and New over an empty-bodied template followed by a clone and the same empty-main-body Parse into both handles (K110).",
          "Trusted: the abstract model (a set is frozen by the first Execute* call made on any of its handles; New(name)/file-based parsing before that disassociate handles of the name; New after that creates a non-member).",
          "DESIGN.md §5 C07"),
  "C08": ("exploration",
@@ -84,7 +84,7 @@ CLAIMED = {
          "DESIGN.md §5 C15"),
  "C16": ("exploration",
          "runtime monitor: every accepted CSSRule result is parsed by an independent CSS Syntax Level 3 stylesheet parser (one qualified rule, prelude = selector, block = style)",
-         "Each accepted (selector, style) is checked on the selector's own tokenisation (no block/rule/comment/ill-formed tokens, balanced brackets) and on the parsed stylesheet. Selector atoms are paired exhaustively, longer selectors are seeded mutations of valid selectors and token soups.",
+         "Each accepted (selector, style) is checked on the selector's own tokenisation (no block/rule/comment/ill-formed tokens, balanced brackets) and on the parsed stylesheet. Selector atoms are paired exhaustively, longer selectors are seeded mutations of valid selectors and token soups. Bracket nesting is driven exhaustively to depths 1..70 and around 2^7..2^16 (four opener patterns; a wrong, missing or surplus closer at the outermost, middle and innermost level).",
          "Trusted: csssyn (self-tested).",
          "DESIGN.md §5 C16"),
  "C17": ("exploration",
